@@ -1244,26 +1244,491 @@ Proof.
 Qed.
 
 (* ====================================================================== *)
-(* replace_subgroups (partial): the empty selection; ONE top-level selection *)
+(* replace_subgroups: swaps exactly the selected members, at any depth      *)
 (* ====================================================================== *)
-Definition SF0 : sfacts := mksfacts "__key__" "."%char true "ValueError" "ValueError" "ValueError".
-Lemma sfacts_are_expected : sfacts_gen = SF0.
+Definition SF1 : sfacts :=
+  mksfacts "__key__" "."%char false "ValueError" "ValueError" "ValueError" true true "ValueError".
+(* the three repaired behaviours are regenerated facts: the init=False test comes after the `continue`, a dict
+   selection without the keyword keeps the current member, left-over selections raise *)
+Lemma sfacts_are_expected : sfacts_gen = SF1.
 Proof. reflexivity. Qed.
 
 Theorem sub_nil T fuel o : rsub_gen T (S fuel) o None = Ok o /\ rsub_gen T (S fuel) o (Some []) = Ok o.
 Proof. split; reflexivity. Qed.
 
-Definition sel_of_choice (c : choice) : sel :=
-  match c with CKey k => SKey k | CType c' => SType c' | CInst v => SInst v | CNone => SNone end.
+Section StreeInd.
+  Variable P : stree -> Prop.
+  Hypothesis Hnode : forall own kids, Forall (fun kt => P (snd kt)) kids -> P (SNode own kids).
+  Fixpoint stree_ind' (t : stree) : P t :=
+    match t with
+    | SNode own kids =>
+        Hnode own kids ((fix go (l : forest) : Forall (fun kt => P (snd kt)) l :=
+                           match l with
+                           | [] => Forall_nil _
+                           | kt :: r => Forall_cons kt (stree_ind' (snd kt)) (go r)
+                           end) kids)
+    end.
+End StreeInd.
 
-Definition all_init (fs : list field) : bool := forallb (fun f => negb (is_noninit (fknd f))) fs.
+Definition obind {A B} (a : option A) (f : A -> option B) : option B := match a with Some x => f x | None => None end.
+
+(* ---------- field update (first init field of that name) ---------- *)
+Fixpoint updf (l : list field) (k : string) (v : value) : list field :=
+  match l with
+  | [] => []
+  | f :: r => if String.eqb k (fname f)
+              then match fknd f with FInit => (fname f, FInit, v) :: r | FNonInit _ _ => f :: r end
+              else f :: updf r k v
+  end.
+
+Lemma update_field_child k g fs cur : child fs k = Some cur -> update_field k g fs = option_map (updf fs k) (g cur).
+Proof.
+  unfold child. induction fs as [|[[n kd] x] r IH]; cbn [flookup]; [discriminate|].
+  cbn [update_field updf fname fknd fval fst snd]. destruct (String.eqb k n) eqn:E.
+  - destruct kd; [|discriminate]. intros H. injection H as ->. destruct (g cur); reflexivity.
+  - intros H. rewrite (IH H). destruct (g cur); reflexivity.
+Qed.
+
+Lemma child_updf_same fs k v cur : child fs k = Some cur -> child (updf fs k v) k = Some v.
+Proof.
+  unfold child. induction fs as [|[[n kd] x] r IH]; cbn [flookup]; [discriminate|].
+  cbn [updf fname fknd fst snd]. destruct (String.eqb k n) eqn:E.
+  - destruct kd; [|discriminate]. intros _. cbn [flookup]. now rewrite E.
+  - intros H. cbn [flookup]. rewrite E. exact (IH H).
+Qed.
+
+Lemma flookup_updf_other fs k v k' : k' <> k -> flookup (updf fs k v) k' = flookup fs k'.
+Proof.
+  intros Hne. induction fs as [|[[n kd] x] r IH]; [reflexivity|].
+  cbn [updf fname fknd fst snd]. destruct (String.eqb k n) eqn:E.
+  - apply String.eqb_eq in E. subst n. destruct kd; [|reflexivity]. cbn [flookup].
+    destruct (String.eqb k' k) eqn:E2; [apply String.eqb_eq in E2; congruence | reflexivity].
+  - cbn [flookup]. now rewrite IH.
+Qed.
+
+Lemma child_updf_other fs k v k' : k' <> k -> child (updf fs k v) k' = child fs k'.
+Proof. intros H. unfold child. now rewrite flookup_updf_other. Qed.
+
+Lemma updf_updf fs k v v' : updf (updf fs k v) k v' = updf fs k v'.
+Proof.
+  induction fs as [|[[n kd] x] r IH]; [reflexivity|]. cbn [updf fname fknd fst snd].
+  destruct (String.eqb k n) eqn:E.
+  - destruct kd; cbn [updf fname fknd fst snd]; rewrite E; reflexivity.
+  - cbn [updf fname fknd fst snd]. now rewrite E, IH.
+Qed.
+
+Lemma updf_same fs k cur : child fs k = Some cur -> updf fs k cur = fs.
+Proof.
+  unfold child. induction fs as [|[[n kd] x] r IH]; cbn [flookup]; [discriminate|].
+  cbn [updf fname fknd fst snd]. destruct (String.eqb k n) eqn:E.
+  - destruct kd; [|discriminate]. intros H. now injection H as ->.
+  - intros H. now rewrite (IH H).
+Qed.
+
+Lemma has_field_updf fs k v k' : has_field (updf fs k v) k' = has_field fs k'.
+Proof.
+  unfold has_field. induction fs as [|[[n kd] x] r IH]; [reflexivity|]. cbn [updf fname fknd fst snd].
+  destruct (String.eqb k n) eqn:E.
+  - destruct kd; cbn [flookup]; destruct (String.eqb k' n); reflexivity.
+  - cbn [flookup]. destruct (String.eqb k' n); [reflexivity | exact IH].
+Qed.
+
+(* ---------- the recursive reading of a forest ---------- *)
+Section Rexp.
+  Variable T : tables.
+  Section Items.
+    Variable rec : stree -> string -> string -> value -> option value.
+    Fixpoint rexp_items (l : forest) (o : value) : option value :=
+      match l with
+      | [] => Some o
+      | kt :: r =>
+          match o with
+          | VDc cls fs =>
+              match child fs (fst kt) with
+              | Some cur => obind (rec (snd kt) cls (fst kt) cur) (fun v => rexp_items r (VDc cls (updf fs (fst kt) v)))
+              | None => None
+              end
+          | _ => None
+          end
+      end.
+  End Items.
+  Fixpoint rexp_tree (t : stree) (cls k : string) (cur : value) : option value :=
+    match t with
+    | SNode own kids =>
+        obind (match own with Some c => member_of T cls k c | None => Some cur end) (rexp_items rexp_tree kids)
+    end.
+  Definition rexp := rexp_items rexp_tree.
+
+  Lemma expected_sub_app A : forall B o,
+    expected_sub T (A ++ B)%list o = obind (expected_sub T A o) (expected_sub T B).
+  Proof.
+    induction A as [|[p c] A IH]; intros B o; [reflexivity|]. cbn [expected_sub app].
+    destruct (split_last p) as [[q name]|]; [|reflexivity].
+    destruct (get o q) as [[| |cls fs]|]; try reflexivity.
+    destruct (child fs name); [|reflexivity]. destruct (member_of T cls name c); [|reflexivity].
+    destruct (set_path p v0 o); [apply IH | reflexivity].
+  Qed.
+
+  Lemma split_last_cons k a p :
+    split_last (k :: a :: p) = match split_last (a :: p) with Some (q, l) => Some (k :: q, l) | None => None end.
+  Proof. reflexivity. Qed.
+
+  Lemma set_path_cons k r m cls fs :
+    set_path (k :: r) m (VDc cls fs) = option_map (VDc cls) (update_field k (set_path r m) fs).
+  Proof. reflexivity. Qed.
+
+  (* selections under a common first step act on the member reached by that step *)
+  Lemma push_down cls k S : forall fs m,
+    child fs k = Some m -> Forall (fun pc => fst pc <> []) S ->
+    expected_sub T (map (fun pc => (k :: fst pc, snd pc)) S) (VDc cls fs) =
+    option_map (fun m' => VDc cls (updf fs k m')) (expected_sub T S m).
+  Proof.
+    induction S as [|[p c] S IH]; intros fs m Hc Hne.
+    - cbn. now rewrite (updf_same _ _ _ Hc).
+    - inversion Hne as [|? ? Hp Hr]; subst. cbn [fst] in Hp. destruct p as [|a p]; [congruence|].
+      cbn [map expected_sub fst snd]. rewrite split_last_cons.
+      destruct (split_last (a :: p)) as [[q name]|]; [|reflexivity].
+      cbn [get]. rewrite Hc.
+      destruct (get m q) as [[| |cls' fs']|]; try reflexivity.
+      destruct (child fs' name); [|reflexivity]. destruct (member_of T cls' name c) as [mm|]; [|reflexivity].
+      rewrite set_path_cons, (update_field_child k _ fs m Hc).
+      destruct (set_path (a :: p) mm m) as [m2|] eqn:SP; cbn [option_map]; [|reflexivity].
+      rewrite (IH (updf fs k m2) m2 (child_updf_same _ _ _ _ Hc) Hr).
+      destruct (expected_sub T S m2); cbn [option_map]; [now rewrite updf_updf | reflexivity].
+  Qed.
+End Rexp.
+
+(* ---------- well-formed selection trees: the nested form with plain keys ---------- *)
+Definition key_ok (kw k : string) : bool := nodot k && negb (String.eqb k kw).
+Definition nonempty_node (own : option choice) (kids : forest) : bool :=
+  match own, kids with None, [] => false | _, _ => true end.
+Fixpoint tree_ok (kw : string) (t : stree) : bool :=
+  match t with
+  | SNode own kids =>
+      nonempty_node own kids &&
+      (str_nodupb (map fst kids) && forallb (key_ok kw) (map fst kids) && forallb (fun kt => tree_ok kw (snd kt)) kids)
+  end.
+Definition forest_ok (kw : string) (F : forest) : bool :=
+  str_nodupb (map fst F) && forallb (key_ok kw) (map fst F) && forallb (fun kt => tree_ok kw (snd kt)) F.
+
+Lemma tree_ok_node kw own kids : tree_ok kw (SNode own kids) = nonempty_node own kids && forest_ok kw kids.
+Proof. reflexivity. Qed.
+
+Lemma forest_ok_cons kw k t r : forest_ok kw ((k, t) :: r) = true ->
+  ~ In k (map fst r) /\ key_ok kw k = true /\ tree_ok kw t = true /\ forest_ok kw r = true.
+Proof.
+  unfold forest_ok. cbn [map fst snd str_nodupb forallb]. intros H.
+  apply andb_true_iff in H as [H H3]. apply andb_true_iff in H as [H1 H2].
+  apply andb_true_iff in H1 as [H1a H1b]. apply andb_true_iff in H2 as [H2a H2b]. apply andb_true_iff in H3 as [H3a H3b].
+  apply negb_true_iff, str_in_false in H1a. repeat split; try assumption. now rewrite H1b, H2b, H3b.
+Qed.
+
+Lemma paths_forest_cons k t (r : forest) :
+  paths_forest ((k, t) :: r) = (map (fun pc => (k :: fst pc, snd pc)) (paths_tree t) ++ paths_forest r)%list.
+Proof. reflexivity. Qed.
+
+Lemma paths_tree_node own kids :
+  paths_tree (SNode own kids) = ((match own with Some c => [([], c)] | None => [] end) ++ paths_forest kids)%list.
+Proof. reflexivity. Qed.
+
+Lemma paths_forest_nonempty_paths F : Forall (fun pc => fst pc <> []) (paths_forest F).
+Proof.
+  induction F as [|[k t] r IH]; [constructor|]. rewrite paths_forest_cons. apply Forall_app. split; [|exact IH].
+  apply Forall_forall. intros pc H. apply in_map_iff in H as [pc' [<- _]]. discriminate.
+Qed.
+
+Lemma paths_tree_nonempty kw t : tree_ok kw t = true -> paths_tree t <> [].
+Proof.
+  induction t as [own kids IH] using stree_ind'. rewrite tree_ok_node, paths_tree_node. intros H.
+  apply andb_true_iff in H as [Hn Hf]. destruct own as [c|]; [discriminate|].
+  destruct kids as [|[k t] r]; [discriminate|]. apply forest_ok_cons in Hf as [_ [_ [Ht _]]].
+  inversion IH as [|? ? Hk _]; subst. cbn [snd] in Hk. specialize (Hk Ht).
+  cbn [app]. rewrite paths_forest_cons. destruct (paths_tree t); [congruence | discriminate].
+Qed.
+
+Lemma expected_sub_no_member T k p c rest o :
+  match o with VDc _ fs => child fs k = None | _ => True end -> expected_sub T ((k :: p, c) :: rest) o = None.
+Proof.
+  intros H. cbn [expected_sub]. destruct p as [|a p].
+  - cbn [split_last get]. destruct o as [| |cls fs]; try reflexivity. now rewrite H.
+  - rewrite split_last_cons. destruct (split_last (a :: p)) as [[q name]|]; [|reflexivity].
+    cbn [get]. destruct o as [| |cls fs]; try reflexivity. now rewrite H.
+Qed.
+
+Definition Pb (T : tables) (kw : string) (t : stree) : Prop :=
+  tree_ok kw t = true -> forall cls fs k cur, child fs k = Some cur ->
+  expected_sub T (map (fun pc => (k :: fst pc, snd pc)) (paths_tree t)) (VDc cls fs) =
+  option_map (fun v => VDc cls (updf fs k v)) (rexp_tree T t cls k cur).
+
+Lemma forest_b T kw F : Forall (fun kt => Pb T kw (snd kt)) F -> forest_ok kw F = true ->
+  forall o, expected_sub T (paths_forest F) o = rexp T F o.
+Proof.
+  unfold rexp. induction F as [|[k t] r IH]; intros HP Hok o; [reflexivity|].
+  inversion HP as [|? ? Ht Hr]; subst. cbn [snd] in Ht.
+  apply forest_ok_cons in Hok as [_ [_ [Htok Hrok]]].
+  rewrite paths_forest_cons, expected_sub_app. cbn [rexp_items fst snd].
+  assert (Hne := paths_tree_nonempty kw t Htok).
+  assert (Fail : match o with VDc _ fs => child fs k = None | _ => True end ->
+                 expected_sub T (map (fun pc => (k :: fst pc, snd pc)) (paths_tree t)) o = None).
+  { intros H. destruct (paths_tree t) as [|[p c] rest]; [congruence|]. cbn [map fst snd].
+    now apply expected_sub_no_member. }
+  destruct o as [ty rp| d | cls fs]; try (rewrite Fail by exact I; reflexivity).
+  destruct (child fs k) as [cur|] eqn:C; [|rewrite Fail by reflexivity; reflexivity].
+  rewrite (Ht Htok cls fs k cur C).
+  destruct (rexp_tree T t cls k cur) as [v|]; cbn [option_map obind]; [|reflexivity].
+  apply (IH Hr Hrok).
+Qed.
+
+Lemma tree_b T kw t : Pb T kw t.
+Proof.
+  induction t as [own kids IH] using stree_ind'. unfold Pb. rewrite tree_ok_node. intros Hok cls fs k cur C.
+  apply andb_true_iff in Hok as [_ Hf].
+  assert (Fb := forest_b T kw kids IH Hf).
+  rewrite paths_tree_node, map_app, expected_sub_app. cbn [rexp_tree].
+  assert (Down : forall fs0 m, child fs0 k = Some m ->
+            expected_sub T (map (fun pc => (k :: fst pc, snd pc)) (paths_forest kids)) (VDc cls fs0) =
+            option_map (fun m' => VDc cls (updf fs0 k m')) (rexp_items (rexp_tree T) kids m)).
+  { intros fs0 m Hc. rewrite (push_down T cls k _ fs0 m Hc (paths_forest_nonempty_paths kids)). now rewrite Fb. }
+  destruct own as [c|].
+  - cbn [map fst snd expected_sub split_last get]. rewrite C.
+    destruct (member_of T cls k c) as [m|]; cbn [obind]; [|reflexivity].
+    rewrite set_path_cons, (update_field_child k _ fs cur C). cbn [set_path option_map obind].
+    rewrite (Down (updf fs k m) m (child_updf_same _ _ _ _ C)).
+    destruct (rexp_items (rexp_tree T) kids m); cbn [option_map]; [now rewrite updf_updf | reflexivity].
+  - cbn [map expected_sub obind]. apply (Down fs cur C).
+Qed.
+
+(* (b) what the executable spec computes on the abstract reading of a forest is the recursive reading *)
+Theorem spec_is_rexp T kw F o : forest_ok kw F = true -> expected_sub T (paths_forest F) o = rexp T F o.
+Proof. intros H. apply (forest_b T kw F); [|exact H]. apply Forall_forall. intros kt _. apply tree_b. Qed.
+
+(* ---------- (a) the model on the nested rendering = the recursive reading ---------- *)
+Definition KW : string := "__key__".
+
+Fixpoint tget (F : forest) (k : string) : option stree :=
+  match F with [] => None | (k', t) :: r => if String.eqb k k' then Some t else tget r k end.
+
+(* all fields at once, in field order *)
+Definition simul_f (T : tables) (F : forest) (cls : string) (f : field) : option field :=
+  match tget F (fname f) with
+  | None => Some f
+  | Some t => match fknd f with
+              | FInit => option_map (fun v => (fname f, FInit, v)) (rexp_tree T t cls (fname f) (fval f))
+              | FNonInit _ _ => None
+              end
+  end.
+Fixpoint simul (T : tables) (F : forest) (cls : string) (l : list field) : option (list field) :=
+  match l with
+  | [] => Some []
+  | f :: r => obind (simul_f T F cls f) (fun y => obind (simul T F cls r) (fun ys => Some (y :: ys)))
+  end.
+
+Lemma simul_nil T cls l : simul T [] cls l = Some l.
+Proof. induction l as [|f r IH]; [reflexivity|]. cbn [simul]. unfold simul_f. cbn [tget obind]. now rewrite IH. Qed.
+
+Lemma tget_none F k : ~ In k (map fst F) -> tget F k = None.
+Proof.
+  induction F as [|[k' t] r IH]; [reflexivity|]. cbn [map fst tget]. intros H.
+  destruct (String.eqb k k') eqn:E; [apply String.eqb_eq in E; subst; exfalso; apply H; now left|].
+  apply IH. intros Hin. apply H. now right.
+Qed.
+
+Lemma names_updf fs k v : map fname (updf fs k v) = map fname fs.
+Proof.
+  induction fs as [|[[n kd] x] r IH]; [reflexivity|]. cbn [updf fname fknd fst snd].
+  destruct (String.eqb k n); [destruct kd; reflexivity | cbn [map]; now rewrite IH].
+Qed.
+
+Lemma simul_other T k t r cls l : ~ In k (map fname l) -> simul T ((k, t) :: r) cls l = simul T r cls l.
+Proof.
+  induction l as [|f l IH]; [reflexivity|]. cbn [map]. intros H. cbn [simul].
+  rewrite IH by (intros Hin; apply H; now right).
+  assert (E : simul_f T ((k, t) :: r) cls f = simul_f T r cls f).
+  { unfold simul_f. cbn [tget]. destruct (String.eqb (fname f) k) eqn:E; [|reflexivity].
+    apply String.eqb_eq in E. exfalso. apply H. now left. }
+  now rewrite E.
+Qed.
+
+Lemma simul_cons T k t r cls fs cur :
+  NoDup (map fname fs) -> ~ In k (map fst r) -> child fs k = Some cur ->
+  simul T ((k, t) :: r) cls fs = obind (rexp_tree T t cls k cur) (fun v => simul T r cls (updf fs k v)).
+Proof.
+  intros N Hk. unfold child. induction fs as [|[[n kd] x] l IH]; cbn [flookup]; [discriminate|].
+  inversion N as [|? ? Hn Nl]; subst. cbn [map fname fst] in Hn.
+  cbn [simul updf fname fknd fval fst snd]. destruct (String.eqb k n) eqn:E.
+  - apply String.eqb_eq in E. subst n. destruct kd; [|discriminate]. intros H. injection H as ->.
+    unfold simul_f at 1. cbn [tget fname fknd fval fst snd]. rewrite String.eqb_refl.
+    rewrite (simul_other T k t r cls l Hn).
+    destruct (rexp_tree T t cls k cur) as [v|]; cbn [option_map obind]; [|reflexivity].
+    cbn [simul]. unfold simul_f. cbn [fname fst]. rewrite (tget_none r k Hk). reflexivity.
+  - intros H. rewrite (IH Nl H). cbn [simul].
+    assert (Ef : simul_f T ((k, t) :: r) cls (n, kd, x) = simul_f T r cls (n, kd, x)).
+    { unfold simul_f. cbn [tget fname fst]. rewrite String.eqb_sym, E. reflexivity. }
+    rewrite Ef. destruct (simul_f T r cls (n, kd, x)); destruct (rexp_tree T t cls k cur); reflexivity.
+Qed.
+
+Lemma simul_noninit_selected T F cls l n t d v tr :
+  In (n, FNonInit t d, v) l -> NoDup (map fname l) -> tget F n = Some tr -> simul T F cls l = None.
+Proof.
+  induction l as [|f l IH]; intros Hin N G; [destruct Hin|]. inversion N as [|? ? Hn Nl]; subst. cbn [simul].
+  destruct Hin as [->|Hin].
+  - unfold simul_f. cbn [fname fknd fst snd]. now rewrite G.
+  - rewrite (IH Hin Nl G). destruct (simul_f T F cls f); reflexivity.
+Qed.
+
+(* sequential (forest order) = simultaneous (field order), plus: every selected name is a field *)
+Lemma rexp_simul T F : forall cls fs, NoDup (map fst F) -> NoDup (map fname fs) ->
+  rexp T F (VDc cls fs) =
+  if forallb (has_field fs) (map fst F) then option_map (VDc cls) (simul T F cls fs) else None.
+Proof.
+  unfold rexp. induction F as [|[k t] r IH]; intros cls fs NF N.
+  - cbn. now rewrite simul_nil.
+  - inversion NF as [|? ? Hk NFr]; subst. cbn [map fst forallb rexp_items snd].
+    destruct (child fs k) as [cur|] eqn:C.
+    + assert (Hf : has_field fs k = true).
+      { unfold has_field. apply child_flookup in C. now rewrite C. }
+      rewrite Hf, (simul_cons T k t r cls fs cur N Hk C). cbn [andb].
+      destruct (rexp_tree T t cls k cur) as [v|]; cbn [obind].
+      * rewrite IH; [| exact NFr | now rewrite names_updf].
+        rewrite (forallb_ext_in (has_field (updf fs k v)) (has_field fs)); [reflexivity|].
+        intros k' _. apply has_field_updf.
+      * destruct (forallb (has_field fs) (map fst r)); reflexivity.
+    + destruct (has_field fs k) eqn:Hf; [|reflexivity]. cbn [andb].
+      unfold has_field in Hf. unfold child in C.
+      destruct (flookup fs k) as [[[|ty d] v]|] eqn:Lk; try discriminate.
+      rewrite (simul_noninit_selected T ((k, t) :: r) cls fs k ty d v t (flookup_In _ _ _ _ Lk) N).
+      * destruct (forallb (has_field fs) (map fst r)); reflexivity.
+      * cbn [tget]. now rewrite String.eqb_refl.
+Qed.
+
+(* ---------- side conditions ---------- *)
+(* every dataclass in the tree: distinct field names, init=False fields at their defaults *)
+Fixpoint vgood (v : value) : bool :=
+  match v with
+  | VDc _ fs => str_nodupb (map fname fs) && noninit_at_default fs && forallb (fun f => vgood (fval f)) fs
+  | _ => true
+  end.
+Definition meta_good (m : fmeta) : bool :=
+  forallb (fun kv => vgood (snd kv)) (m_subgroups m) && match m_factory m with Some v => vgood v | None => true end.
+Definition tgood (T : tables) : bool :=
+  forallb (fun cv => vgood (snd cv)) (t_classes T) && forallb (fun cm => meta_good (snd cm)) (t_meta T).
+Fixpoint tree_good (t : stree) : bool :=
+  match t with
+  | SNode own kids =>
+      match own with Some (CInst v) => vgood v | _ => true end && forallb (fun kt => tree_good (snd kt)) kids
+  end.
+Definition forest_good (F : forest) : bool := forallb (fun kt => tree_good (snd kt)) F.
+
+(* a member that is not itself selected but has selections below it must be there (a dataclass instance, in a field
+   whose annotation holds a dataclass); for a selected member the condition is about the member that is put there *)
+Section Present.
+  Variable T : tables.
+  Section Items.
+    Variable rec : stree -> string -> string -> value -> bool.
+    Fixpoint present_items (l : forest) (o : value) : bool :=
+      match l with
+      | [] => true
+      | kt :: r =>
+          match o with
+          | VDc cls fs => match child fs (fst kt) with Some cur => rec (snd kt) cls (fst kt) cur | None => true end
+          | _ => true
+          end && present_items r o
+      end.
+  End Items.
+  Fixpoint present_tree (t : stree) (cls k : string) (cur : value) : bool :=
+    match t with
+    | SNode own kids =>
+        match own with
+        | None => is_dc cur && match meta_of (t_meta T) cls k with Some m => m_has_dc m | None => false end
+                  && present_items present_tree kids cur
+        | Some c => match member_of T cls k c with Some m => present_items present_tree kids m | None => true end
+        end
+    end.
+  Definition present := present_items present_tree.
+End Present.
+
+Fixpoint depth_tree (t : stree) : nat :=
+  match t with SNode _ kids => S (list_max (map (fun kt => depth_tree (snd kt)) kids)) end.
+Definition depth_forest (F : forest) : nat := list_max (map (fun kt => depth_tree (snd kt)) F).
+
+(* ---------- plumbing on the model side ---------- *)
+Lemma sset_notin (d : sdict) k v : ~ In k (map fst d) -> sset d k v = (d ++ [(k, v)])%list.
+Proof.
+  induction d as [|[k' v'] r IH]; cbn [sset map fst]; intros H; [reflexivity|].
+  destruct (String.eqb k k') eqn:E; [apply String.eqb_eq in E; subst; exfalso; apply H; now left|].
+  cbn [app]. f_equal. apply IH. intros Hin. apply H. now right.
+Qed.
+
+Lemma sel_tops_plain (d : sdict) : forallb nodot (map fst d) = true -> sel_tops SF1 d = [].
+Proof.
+  unfold sel_tops. induction d as [|[k v] r IH]; [reflexivity|]. cbn [map fst forallb flat_map s_sep SF1].
+  intros H. apply andb_true_iff in H as [Hk Hr]. unfold nodot in Hk. apply negb_true_iff in Hk.
+  rewrite (split_on_nodot _ _ _ Hk). cbn [app]. exact (IH Hr).
+Qed.
+
+Lemma unflatten_selection_plain (d : sdict) :
+  NoDup (map fst d) -> forallb nodot (map fst d) = true -> unflatten_selection SF1 d = d.
+Proof.
+  intros N D. unfold unflatten_selection. rewrite (sel_tops_plain d D). cbn [s_sep SF1].
+  assert (G : forall (rest acc : sdict), NoDup (map fst acc ++ map fst rest) -> forallb nodot (map fst rest) = true ->
+            fold_left (fun dc kv => match split_on "."%char (fst kv) "" with
+                                    | top :: rest0 =>
+                                        if str_in top [] then
+                                          sset dc top (SDict match rest0 with
+                                                             | [] => sset match sget dc top with Some (SDict s) => s | _ => [] end (s_keyword SF1) (snd kv)
+                                                             | _ :: _ => sset match sget dc top with Some (SDict s) => s | _ => [] end (join_dot rest0) (snd kv)
+                                                             end)
+                                        else sset dc (fst kv) (snd kv)
+                                    | [] => dc
+                                    end) rest acc = (acc ++ rest)%list).
+  { induction rest as [|[k v] r IH]; intros acc Na Dr; [now rewrite app_nil_r|].
+    cbn [map fst forallb] in Dr. apply andb_true_iff in Dr as [Hk Hr]. unfold nodot in Hk. apply negb_true_iff in Hk.
+    cbn [fold_left fst snd]. rewrite (split_on_nodot _ _ _ Hk). cbn [str_in existsb].
+    assert (Hn : ~ In k (map fst acc)).
+    { cbn [map fst] in Na. apply NoDup_remove_2 in Na. intros H. apply Na. apply in_or_app. now left. }
+    rewrite (sset_notin acc k v Hn), IH; [now rewrite <- app_assoc | | exact Hr].
+    rewrite map_app. cbn [map fst app]. rewrite <- app_assoc. exact Na. }
+  exact (G d [] N D).
+Qed.
+
+Lemma sget_render F k : sget (render_forest KW F) k = option_map (render_tree KW) (tget F k).
+Proof.
+  induction F as [|[k' t] r IH]; [reflexivity|]. cbn [render_forest map fst snd sget tget].
+  destruct (String.eqb k k'); [reflexivity | exact IH].
+Qed.
+
+Lemma leftover_render fs F :
+  match sel_leftover fs (render_forest KW F) with [] => false | _ => true end
+  = negb (forallb (has_field fs) (map fst F)).
+Proof.
+  unfold sel_leftover. induction F as [|[k t] r IH]; [reflexivity|]. cbn [render_forest map fst snd filter forallb].
+  destruct (has_field fs k); cbn [negb andb]; [exact IH | reflexivity].
+Qed.
+
+Lemma keys_render F : map fst (render_forest KW F) = map fst F.
+Proof. unfold render_forest. rewrite map_map. reflexivity. Qed.
+
+Lemma sget_kids_kw (kids : forest) : forallb (key_ok KW) (map fst kids) = true -> sget (render_forest KW kids) KW = None.
+Proof.
+  induction kids as [|[k t] r IH]; [reflexivity|]. cbn [render_forest map fst snd forallb sget]. intros H.
+  apply andb_true_iff in H as [Hk Hr]. unfold key_ok in Hk. apply andb_true_iff in Hk as [_ Hk].
+  apply negb_true_iff in Hk. rewrite String.eqb_sym, Hk. exact (IH Hr).
+Qed.
+
+Lemma sremove_kids_kw (kids : forest) : forallb (key_ok KW) (map fst kids) = true ->
+  sremove (render_forest KW kids) KW = render_forest KW kids.
+Proof.
+  unfold sremove. induction kids as [|[k t] r IH]; [reflexivity|]. cbn [render_forest map fst snd forallb filter]. intros H.
+  apply andb_true_iff in H as [Hk Hr]. unfold key_ok in Hk. apply andb_true_iff in Hk as [_ Hk].
+  rewrite Hk. f_equal. exact (IH Hr).
+Qed.
 
 (* the chain of replace_subgroups picks the member the choice denotes, or raises *)
 Lemma resolve_member T cls name c m :
   meta_of (t_meta T) cls name = Some m -> m_has_dc m = true ->
   match member_of T cls name c with
-  | Some v => resolve SF0 T m (sel_of_choice c) = Ok v
-  | None => exists x, resolve SF0 T m (sel_of_choice c) = Err (Raise x)
+  | Some v => resolve SF1 T m (sel_of_choice c) = Ok v
+  | None => exists x, resolve SF1 T m (sel_of_choice c) = Err (Raise x)
   end.
 Proof.
   intros Hm Hdc. unfold member_of. rewrite Hm, Hdc. cbn [negb].
@@ -1278,109 +1743,329 @@ Proof.
     destruct (m_factory m); [reflexivity | eexists; reflexivity].
 Qed.
 
-Lemma sloop_skip rec T cls k s l :
-  all_init l = true -> ~ In k (map fname l) -> sloop SF0 T rec cls [(k, s)] l = Ok [].
+Lemma meta_of_In l cls k m : meta_of l cls k = Some m -> In (cls, k, m) l.
 Proof.
-  induction l as [|f r IH]; intros A H; [reflexivity|].
-  cbn [all_init forallb] in A. apply andb_true_iff in A as [A1 A2]. apply negb_true_iff in A1.
-  cbn [sloop]. rewrite A1. cbn [andb sget].
-  destruct (String.eqb (fname f) k) eqn:E.
-  - apply String.eqb_eq in E. exfalso. apply H. now left.
-  - apply IH; [exact A2 | intros Hin; apply H; now right].
+  induction l as [|[[c n] m'] r IH]; cbn [meta_of]; [discriminate|].
+  destruct (String.eqb c cls && String.eqb n k) eqn:E.
+  - apply andb_true_iff in E as [E1 E2]. apply String.eqb_eq in E1, E2. subst. intros H. injection H as ->. now left.
+  - intros H. right. exact (IH H).
 Qed.
 
-Lemma dc_fields_skip_all l k v : all_init l = true -> ~ In k (map fname l) -> dc_fields l [(k, v)] = Ok l.
+Lemma member_good T cls k c m :
+  tgood T = true -> match c with CInst v => vgood v | _ => true end = true ->
+  member_of T cls k c = Some m -> vgood m = true.
 Proof.
-  induction l as [|[[n kd] x] r IH]; intros A H; [reflexivity|].
-  cbn [all_init forallb] in A. apply andb_true_iff in A as [A1 A2]. cbn [fknd fst snd] in A1.
-  destruct kd; [|discriminate]. cbn [dc_fields dget].
-  destruct (String.eqb n k) eqn:E.
-  - apply String.eqb_eq in E. exfalso. apply H. now left.
-  - rewrite IH; [reflexivity | exact A2 | intros Hin; apply H; now right].
+  unfold tgood, member_of. intros HT Hc. apply andb_true_iff in HT as [Hcl Hme].
+  rewrite forallb_forall in Hcl, Hme.
+  destruct (meta_of (t_meta T) cls k) as [mt|] eqn:Hm; [|discriminate].
+  apply meta_of_In in Hm. specialize (Hme _ Hm). cbn [snd] in Hme. unfold meta_good in Hme.
+  apply andb_true_iff in Hme as [Hsg Hfa]. rewrite forallb_forall in Hsg.
+  destruct (negb (m_has_dc mt)); [discriminate|].
+  destruct c as [k'|c'|v|].
+  - intros H. apply dget_In in H. exact (Hsg _ H).
+  - intros H. apply dget_In in H. exact (Hcl _ H).
+  - intros H. injection H as <-. exact Hc.
+  - destruct (m_subgroups mt); [|discriminate]. destruct (m_optional mt); [intros H; now injection H as <-|].
+    destruct (m_factory mt); [|discriminate]. intros H. now injection H as <-.
 Qed.
 
-Theorem sub_single T fuel cls fs k c :
-  NoDup (map fname fs) -> all_init fs = true -> nodot k = true -> has_init_field fs k = true ->
-  match expected_sub T [([k], c)] (VDc cls fs) with
-  | Some e => rsub_gen T (S fuel) (VDc cls fs) (Some [(k, sel_of_choice c)]) = Ok e
-  | None => exists x, rsub_gen T (S fuel) (VDc cls fs) (Some [(k, sel_of_choice c)]) = Err (Raise x)
+(* what the loop computes for one selected init field *)
+Definition fieldcomp (T : tables) (rec : value -> option sdict -> res value) (cls k : string) (cur : value)
+           (selection : sel) : res value :=
+  match meta_of (t_meta T) cls k with
+  | None => Err (Raise "ModelMissingMeta")
+  | Some m => if negb (m_has_dc m) then Err (Raise (s_nodc_err SF1)) else sfield SF1 T rec m cur selection
+  end.
+
+Definition field_claim (T : tables) (rec : value -> option sdict -> res value) (cls k : string) (cur : value)
+           (t : stree) : Prop :=
+  match rexp_tree T t cls k cur with
+  | Some v => fieldcomp T rec cls k cur (render_tree KW t) = Ok v
+  | None => exists x, fieldcomp T rec cls k cur (render_tree KW t) = Err (Raise x)
+  end.
+
+Lemma noninit_head n t d x r : noninit_at_default ((n, FNonInit t d, x) :: r) = true ->
+  x = VLeaf t d /\ noninit_at_default r = true.
+Proof.
+  cbn [noninit_at_default forallb fknd fval fst snd]. intros H. apply andb_true_iff in H as [H1 H2].
+  split; [|exact H2]. destruct x as [t' d'| |]; try discriminate. apply andb_true_iff in H1 as [E1 E2].
+  apply String.eqb_eq in E1, E2. now subst.
+Qed.
+
+Lemma noninit_tail f r : noninit_at_default (f :: r) = true -> noninit_at_default r = true.
+Proof. cbn [noninit_at_default forallb]. intros H. now apply andb_true_iff in H as [_ H]. Qed.
+
+Lemma sloop_simul T rec cls F l :
+  NoDup (map fname l) -> noninit_at_default l = true ->
+  (forall name cur t, In (name, FInit, cur) l -> tget F name = Some t -> field_claim T rec cls name cur t) ->
+  match simul T F cls l with
+  | Some l' => exists kw_, sloop SF1 T rec cls (render_forest KW F) l = Ok kw_ /\
+                 (forall k, In k (dkeys kw_) -> exists v, In (k, FInit, v) l) /\ dc_fields l kw_ = Ok l'
+  | None => exists x, sloop SF1 T rec cls (render_forest KW F) l = Err (Raise x)
   end.
 Proof.
-  intros N A Hk Hf. change (rsub_gen T (S fuel)) with (rsub SF0 T (S fuel)).
-  cbn [expected_sub split_last get]. cbn [rsub].
-  assert (U : unflatten_selection SF0 [(k, sel_of_choice c)] = [(k, sel_of_choice c)]).
-  { unfold unflatten_selection, sel_tops. cbn [flat_map fold_left fst snd s_sep SF0 app].
-    unfold nodot in Hk. apply negb_true_iff in Hk. rewrite (split_on_nodot _ _ _ Hk). reflexivity. }
-  rewrite U. clear U.
-  unfold has_init_field in Hf. destruct (flookup fs k) as [[[|t d] v0]|] eqn:Lk; try discriminate. clear Hf.
-  unfold child. rewrite Lk.
-  (* walk the field list up to k *)
-  assert (Main : forall l, NoDup (map fname l) -> all_init l = true -> flookup l k = Some (FInit, v0) ->
-    match member_of T cls k c with
-    | Some m => exists l', update_field k (fun _ => Some m) l = Some l' /\
-                  sloop SF0 T (rsub SF0 T fuel) cls [(k, sel_of_choice c)] l = Ok [(k, m)] /\
-                  dc_fields l [(k, m)] = Ok l'
-    | None => exists x, sloop SF0 T (rsub SF0 T fuel) cls [(k, sel_of_choice c)] l = Err (Raise x)
-    end).
-  { induction l as [|[[n kd] x] r IH]; intros Nl Al L; [discriminate|].
-    cbn [all_init forallb] in Al. apply andb_true_iff in Al as [A1 A2]. cbn [fknd fst snd] in A1.
-    destruct kd; [|discriminate]. inversion Nl as [|? ? Hn Nr]; subst. cbn [map fname fst] in Hn.
-    cbn [flookup] in L. cbn [sloop update_field fname fknd fval fst snd is_noninit andb sget dc_fields dget].
-    rewrite andb_false_r. rewrite (String.eqb_sym n k).
-    destruct (String.eqb k n) eqn:E.
-    - apply String.eqb_eq in E. subst n. injection L as ->.
-      destruct (meta_of (t_meta T) cls k) as [m|] eqn:Hm.
-      + destruct (m_has_dc m) eqn:Hdc; cbn [negb].
-        * assert (R := resolve_member T cls k c m Hm Hdc).
-          destruct (member_of T cls k c) as [mem|].
-          -- exists ((k, FInit, mem) :: r). cbn [option_map]. split; [reflexivity|].
-             destruct c; cbn [sel_of_choice fst snd] in *; rewrite R; cbn [bind];
-               rewrite (sloop_skip _ T cls k _ r A2 Hn); cbn [bind];
-               rewrite (dc_fields_skip_all r k mem A2 Hn); split; reflexivity.
-          -- destruct R as [x R]. exists x. destruct c; cbn [sel_of_choice fst snd] in *; rewrite R; reflexivity.
-        * unfold member_of. rewrite Hm, Hdc. cbn [negb]. eexists. reflexivity.
-      + unfold member_of. rewrite Hm. eexists. reflexivity.
-    - specialize (IH Nr A2 L). destruct (member_of T cls k c) as [mem|].
-      + destruct IH as [l' [U [SL DF]]]. exists ((n, FInit, x) :: l'). rewrite U, SL, DF. cbn [option_map bind].
-        repeat split; reflexivity.
-      + exact IH. }
-  specialize (Main fs N A Lk).
-  destruct (member_of T cls k c) as [mem|].
-  - destruct Main as [l' [U [SL DF]]]. cbn [set_path]. rewrite U. cbn [option_map expected_sub].
-    rewrite SL. cbn [bind dc_replace]. rewrite DF. cbn [bind forallb fst].
-    unfold has_init_field. rewrite Lk. reflexivity.
-  - destruct Main as [x SL]. exists x. rewrite SL. reflexivity.
+  induction l as [|[[n kd] x] r IH]; intros N ND H.
+  - cbn. exists []. split; [reflexivity|]. split; [intros k0 [] | reflexivity].
+  - inversion N as [|? ? Hn Nr]; subst. cbn [map fname fst] in Hn.
+    assert (IHr := IH Nr (noninit_tail _ _ ND) (fun name cur t Hin => H name cur t (or_intror Hin))). clear IH.
+    cbn [simul sloop fname fknd fval fst snd]. cbn [SF1 s_noninit_first andb].
+    rewrite sget_render. unfold simul_f. cbn [fname fknd fval fst snd].
+    destruct (tget F n) as [t|] eqn:G; cbn [option_map obind].
+    + destruct kd as [|ty d]; cbn [is_noninit].
+      * assert (C := H n x t (or_introl eq_refl) G). unfold field_claim in C.
+        assert (Br : forall (kont : value -> res dict),
+                  match meta_of (t_meta T) cls n with
+                  | None => Err (Raise "ModelMissingMeta")
+                  | Some m => if negb (m_has_dc m) then Err (Raise (s_nodc_err SF1))
+                              else bind (sfield SF1 T rec m x (render_tree KW t)) kont
+                  end = bind (fieldcomp T rec cls n x (render_tree KW t)) kont).
+        { intros kont. unfold fieldcomp. destruct (meta_of (t_meta T) cls n) as [m|]; [|reflexivity].
+          destruct (negb (m_has_dc m)); reflexivity. }
+        rewrite Br. clear Br.
+        destruct (rexp_tree T t cls n x) as [v|]; cbn [option_map obind].
+        -- rewrite C. cbn [bind]. destruct (simul T F cls r) as [r'|]; cbn [obind].
+           ++ destruct IHr as [kw_ [SL [Kk DF]]]. exists ((n, v) :: kw_). rewrite SL. cbn [bind]. split; [reflexivity|]. split.
+              ** intros k [<-|Hk]; [exists x; now left | destruct (Kk k Hk) as [v0 Hv0]; exists v0; now right].
+              ** cbn [dc_fields dget]. rewrite String.eqb_refl, (dc_fields_skip r n v kw_ Hn), DF. reflexivity.
+           ++ destruct IHr as [e SL]. exists e. rewrite SL. reflexivity.
+        -- destruct C as [e C]. exists e. rewrite C. reflexivity.
+      * eexists. reflexivity.
+    + destruct (simul T F cls r) as [r'|]; cbn [obind].
+      * destruct IHr as [kw_ [SL [Kk DF]]]. exists kw_. split; [exact SL|]. split.
+        -- intros k Hk. destruct (Kk k Hk) as [v0 Hv0]. exists v0. now right.
+        -- assert (Hkn : ~ In n (dkeys kw_)).
+           { intros Hin. destruct (Kk n Hin) as [v0 Hv0]. apply Hn. apply (in_map fname) in Hv0. exact Hv0. }
+           destruct kd as [|ty d]; cbn [dc_fields].
+           ++ apply dget_none in Hkn. rewrite Hkn, DF. reflexivity.
+           ++ unfold dhas. apply dget_none in Hkn. rewrite Hkn, DF. cbn [bind].
+              destruct (noninit_head _ _ _ _ _ ND) as [-> _]. reflexivity.
+      * destruct IHr as [e SL]. exists e. exact SL.
 Qed.
 
-(* the full-strength statement is false of the (faithful) model: three witnesses, each a single selection in the flat
-   rendering "a.b" -> choice *)
+Definition forest_claim (T : tables) (F : forest) : Prop :=
+  forall fuel o, forest_ok KW F = true -> forest_good F = true -> tgood T = true -> vgood o = true ->
+    present T F o = true -> depth_forest F < fuel ->
+    match rexp T F o with
+    | Some e => rsub SF1 T fuel o (Some (render_forest KW F)) = Ok e
+    | None => exists x, rsub SF1 T fuel o (Some (render_forest KW F)) = Err (Raise x)
+    end.
+
+Definition tree_claim (T : tables) (t : stree) : Prop :=
+  forall fuel cls k cur, tree_ok KW t = true -> tree_good t = true -> tgood T = true -> vgood cur = true ->
+    present_tree T t cls k cur = true -> depth_tree t <= fuel ->
+    field_claim T (rsub SF1 T fuel) cls k cur t.
+
+Lemma list_max_le_in l x : In x l -> x <= list_max l.
+Proof.
+  induction l as [|y r IH]; [intros []|]. cbn [list_max]. intros [->|H]; [apply Nat.le_max_l|].
+  etransitivity; [exact (IH H) | apply Nat.le_max_r].
+Qed.
+
+Lemma tget_In F k t : tget F k = Some t -> In (k, t) F.
+Proof.
+  induction F as [|[k' t'] r IH]; cbn [tget]; [discriminate|]. destruct (String.eqb k k') eqn:E.
+  - apply String.eqb_eq in E. subst. intros H. injection H as ->. now left.
+  - intros H. right. exact (IH H).
+Qed.
+
+Lemma present_items_In T F o k t : present T F o = true -> In (k, t) F ->
+  match o with
+  | VDc cls fs => match child fs k with Some cur => present_tree T t cls k cur = true | None => True end
+  | _ => True
+  end.
+Proof.
+  unfold present. induction F as [|[k' t'] r IH]; [intros _ []|]. cbn [present_items fst snd]. intros H Hin.
+  apply andb_true_iff in H as [H1 H2]. destruct Hin as [E|Hin]; [injection E as -> ->|exact (IH H2 Hin)].
+  destruct o as [| |cls fs]; try exact I. destruct (child fs k); [exact H1 | exact I].
+Qed.
+
+Lemma forest_a T F : Forall (fun kt => tree_claim T (snd kt)) F -> forest_claim T F.
+Proof.
+  intros HT fuel o Hok Hg HTg Ho Hp Hd. destruct fuel as [|fuel]; [inversion Hd|].
+  destruct F as [|[k0 t0] F0] eqn:EF; [reflexivity|]. rewrite <- EF in *.
+  assert (Hne : render_forest KW F = (k0, render_tree KW t0) :: render_forest KW F0) by (now rewrite EF).
+  cbn [rsub]. rewrite Hne. rewrite <- Hne.
+  destruct o as [ty rp| d | cls fs].
+  - rewrite EF. cbn. eexists. reflexivity.
+  - rewrite EF. cbn. eexists. reflexivity.
+  - assert (Hok' := Hok). unfold forest_ok in Hok'. apply andb_true_iff in Hok' as [Hok1 Htrees].
+    apply andb_true_iff in Hok1 as [Hnd Hkeys]. apply str_nodupb_NoDup in Hnd.
+    cbn [vgood] in Ho. apply andb_true_iff in Ho as [Ho1 Hvals]. apply andb_true_iff in Ho1 as [Hnames Hdef].
+    apply nodup_names in Hnames. rewrite forallb_forall in Hvals, Htrees.
+    unfold forest_good in Hg. rewrite forallb_forall in Hg. rewrite Forall_forall in HT.
+    rewrite (unflatten_selection_plain (render_forest KW F)).
+    2:{ now rewrite keys_render. }
+    2:{ rewrite keys_render. rewrite forallb_forall in Hkeys |- *. intros k Hk. specialize (Hkeys k Hk).
+        unfold key_ok in Hkeys. now apply andb_true_iff in Hkeys as [Hkeys _]. }
+    rewrite (rexp_simul T F cls fs Hnd Hnames).
+    assert (SS := sloop_simul T (rsub SF1 T fuel) cls F fs Hnames Hdef).
+    assert (Claims : forall name cur t, In (name, FInit, cur) fs -> tget F name = Some t ->
+                      field_claim T (rsub SF1 T fuel) cls name cur t).
+    { intros name cur t Hin G. apply tget_In in G.
+      apply (HT _ G); cbn [snd].
+      - exact (Htrees _ G).
+      - exact (Hg _ G).
+      - exact HTg.
+      - exact (Hvals _ Hin).
+      - assert (Pr := present_items_In T F (VDc cls fs) name t Hp G). cbn beta iota in Pr.
+        rewrite (proj2 (child_flookup fs name cur) (In_flookup _ _ _ _ Hnames Hin)) in Pr. exact Pr.
+      - assert (Hle : depth_tree t <= depth_forest F).
+        { unfold depth_forest. apply list_max_le_in. apply in_map_iff. exists (name, t). split; [reflexivity | exact G]. }
+        lia. }
+    specialize (SS Claims). rewrite leftover_render. cbn [SF1 s_leftover_check s_leftover_err andb].
+    destruct (simul T F cls fs) as [l'|].
+    + destruct SS as [kw_ [SL [Kk DF]]]. rewrite SL. cbn [bind].
+      destruct (forallb (has_field fs) (map fst F)); cbn [negb option_map]; [|eexists; reflexivity].
+      unfold dc_replace. rewrite DF. cbn [bind].
+      assert (Hkw : forallb (fun kv => has_init_field fs (fst kv)) kw_ = true).
+      { apply forallb_forall. intros [k v] Hin. cbn [fst]. destruct (Kk k) as [v0 Hv0].
+        - apply (in_map fst) in Hin. exact Hin.
+        - unfold has_init_field. now rewrite (In_flookup _ _ _ _ Hnames Hv0). }
+      rewrite Hkw. reflexivity.
+    + destruct SS as [e SL]. rewrite SL. cbn [bind].
+      destruct (forallb (has_field fs) (map fst F)); exists e; reflexivity.
+Qed.
+
+Lemma tree_a T t : tree_claim T t.
+Proof.
+  induction t as [own kids IH] using stree_ind'.
+  assert (FC := forest_a T kids IH). clear IH.
+  intros fuel cls k cur Hok Hg HTg Hcur Hp Hd.
+  rewrite tree_ok_node in Hok. apply andb_true_iff in Hok as [Hne Hfok].
+  cbn [tree_good] in Hg. apply andb_true_iff in Hg as [Hown Hkg]. fold (forest_good kids) in Hkg.
+  cbn [depth_tree] in Hd. fold (depth_forest kids) in Hd.
+  assert (Hkeys : forallb (key_ok KW) (map fst kids) = true).
+  { unfold forest_ok in Hfok. apply andb_true_iff in Hfok as [Hfok _]. now apply andb_true_iff in Hfok as [_ Hfok]. }
+  (* the recursive call on the members below *)
+  assert (Below : forall mm, vgood mm = true -> present T kids mm = true ->
+            match rexp T kids mm with
+            | Some e => rsub SF1 T fuel mm (Some (render_forest KW kids)) = Ok e
+            | None => exists x, rsub SF1 T fuel mm (Some (render_forest KW kids)) = Err (Raise x)
+            end).
+  { intros mm Hmm Hpm. apply FC; assumption. }
+  unfold field_claim, fieldcomp. cbn [rexp_tree present_tree] in *.
+  destruct (meta_of (t_meta T) cls k) as [m|] eqn:Hm.
+  2:{ destruct own as [c|].
+      - unfold member_of. rewrite Hm. cbn [obind]. eexists. reflexivity.
+      - rewrite andb_false_r in Hp. discriminate. }
+  destruct (m_has_dc m) eqn:Hdc; cbn [negb].
+  2:{ destruct own as [c|].
+      - unfold member_of. rewrite Hm, Hdc. cbn [negb obind]. eexists. reflexivity.
+      - rewrite andb_false_r in Hp. discriminate. }
+  destruct own as [c|].
+  - assert (RM := resolve_member T cls k c m Hm Hdc).
+    destruct kids as [|kt r].
+    + (* a bare choice *)
+      cbn [render_tree]. unfold rexp in *. cbn [rexp_items].
+      assert (E : sfield SF1 T (rsub SF1 T fuel) m cur (sel_of_choice c) = bind (resolve SF1 T m (sel_of_choice c)) (fun fv => Ok fv)).
+      { destruct c; reflexivity. }
+      rewrite E. destruct (member_of T cls k c) as [mm|]; cbn [obind].
+      * now rewrite RM.
+      * destruct RM as [x RM]. exists x. now rewrite RM.
+    + (* the member itself and members below it *)
+      cbn [render_tree]. fold (render_forest KW (kt :: r)).
+      assert (E : sfield SF1 T (rsub SF1 T fuel) m cur (SDict ((KW, sel_of_choice c) :: render_forest KW (kt :: r))) =
+                  bind (resolve SF1 T m (sel_of_choice c))
+                       (fun fv => rsub SF1 T fuel fv (Some (render_forest KW (kt :: r))))).
+      { unfold sfield. cbn [sget s_keyword SF1]. change "__key__" with KW. rewrite String.eqb_refl. cbn [andb].
+        rewrite andb_false_r. cbn [andb]. unfold sremove. cbn [filter fst]. rewrite String.eqb_refl. cbn [negb].
+        fold (sremove (render_forest KW (kt :: r)) KW). rewrite (sremove_kids_kw (kt :: r) Hkeys). reflexivity. }
+      cbn [app]. rewrite E. clear E.
+      destruct (member_of T cls k c) as [mm|] eqn:Mo; cbn [obind].
+      * rewrite RM. cbn [bind]. apply Below; [|exact Hp].
+        apply (member_good T cls k c mm HTg); [|exact Mo]. destruct c; try reflexivity. exact Hown.
+      * destruct RM as [x RM]. exists x. now rewrite RM.
+  - (* only members below: the current member is kept *)
+    destruct kids as [|kt r]; [discriminate|].
+    apply andb_true_iff in Hp as [Hp Hpk]. apply andb_true_iff in Hp as [Hisdc _].
+    cbn [render_tree app obind]. fold (render_forest KW (kt :: r)).
+    assert (E : sfield SF1 T (rsub SF1 T fuel) m cur (SDict (render_forest KW (kt :: r))) =
+                rsub SF1 T fuel cur (Some (render_forest KW (kt :: r)))).
+    { unfold sfield. cbn [s_keyword SF1 s_keep_member]. change "__key__" with KW.
+      rewrite (sget_kids_kw (kt :: r) Hkeys), Hisdc. cbn [andb bind].
+      rewrite (sremove_kids_kw (kt :: r) Hkeys). reflexivity. }
+    rewrite E. apply Below; assumption.
+Qed.
+
+(* (a) *)
+Theorem model_is_rexp T F fuel o :
+  forest_ok KW F = true -> forest_good F = true -> tgood T = true -> vgood o = true ->
+  present T F o = true -> depth_forest F < fuel ->
+  match rexp T F o with
+  | Some e => rsub SF1 T fuel o (Some (render_forest KW F)) = Ok e
+  | None => exists x, rsub SF1 T fuel o (Some (render_forest KW F)) = Err (Raise x)
+  end.
+Proof. apply (forest_a T F). apply Forall_forall. intros kt _. apply tree_a. Qed.
+
+(* replace_subgroups on the nested form of ANY selection forest, at any depth: the result is the object with exactly the
+   selected paths assigned the members their choices denote (shallowest first), or the call raises when some selection
+   denotes no member (unknown / init=False field, unknown key, a field that holds no dataclass) *)
+Theorem sub_full T F fuel o :
+  forest_ok KW F = true -> forest_good F = true -> tgood T = true -> vgood o = true ->
+  present T F o = true -> depth_forest F < fuel ->
+  match expected_sub T (paths_forest F) o with
+  | Some e => rsub_gen T fuel o (Some (render_forest KW F)) = Ok e
+  | None => exists x, rsub_gen T fuel o (Some (render_forest KW F)) = Err (Raise x)
+  end.
+Proof.
+  intros Hok Hg HT Ho Hp Hd. rewrite (spec_is_rexp T KW F o Hok).
+  change (rsub_gen T fuel) with (rsub SF1 T fuel). now apply model_is_rexp.
+Qed.
+
+(* what "assigned" means: the path holds the member, every path that neither leads to it nor lies below it is as before *)
+Lemma update_field_some k g fs fs' : update_field k g fs = Some fs' ->
+  exists cur x, child fs k = Some cur /\ g cur = Some x /\ fs' = updf fs k x.
+Proof.
+  unfold child. revert fs'. induction fs as [|[[n kd] y] r IH]; intros fs'; cbn [update_field]; [discriminate|].
+  cbn [flookup updf fname fknd fval fst snd]. destruct (String.eqb k n) eqn:E.
+  - destruct kd; [|discriminate]. destruct (g y) as [x|] eqn:G; [|discriminate]. cbn [option_map].
+    intros H. injection H as <-. exists y, x. auto.
+  - destruct (update_field k g r) as [r'|] eqn:U; [|discriminate]. cbn [option_map]. intros H. injection H as <-.
+    destruct (IH r' eq_refl) as [cur [x [H1 [H2 H3]]]]. exists cur, x. subst. auto.
+Qed.
+
+Theorem set_path_get p : forall m o o', set_path p m o = Some o' -> get o' p = Some m.
+Proof.
+  induction p as [|k r IH]; intros m o o' H.
+  - cbn in H. now injection H as <-.
+  - destruct o as [| |cls fs]; try discriminate. rewrite set_path_cons in H.
+    destruct (update_field k (set_path r m) fs) as [fs'|] eqn:U; [|discriminate]. injection H as <-.
+    apply update_field_some in U as [cur [x [C [S ->]]]]. cbn [get].
+    rewrite (child_updf_same _ _ _ _ C). exact (IH _ _ _ S).
+Qed.
+
+Theorem set_path_frame p : forall m o o' q, set_path p m o = Some o' ->
+  is_prefix p q = false -> is_prefix q p = false -> get o' q = get o q.
+Proof.
+  induction p as [|k r IH]; intros m o o' q H P1 P2; [discriminate|].
+  destruct q as [|k' q]; [discriminate|].
+  destruct o as [| |cls fs]; try discriminate. rewrite set_path_cons in H.
+  destruct (update_field k (set_path r m) fs) as [fs'|] eqn:U; [|discriminate]. injection H as <-.
+  apply update_field_some in U as [cur [x [C [S ->]]]]. cbn [get is_prefix] in *.
+  destruct (String.eqb k k') eqn:E.
+  - apply String.eqb_eq in E. subst k'. rewrite String.eqb_refl in P2. cbn [andb] in P1, P2.
+    rewrite (child_updf_same _ _ _ _ C), C. exact (IH _ _ _ _ S P1 P2).
+  - rewrite child_updf_other; [reflexivity|]. intros ->. now rewrite String.eqb_refl in E.
+Qed.
+
+(* still false of the (faithful) model without `present`: a selection BELOW a member that is not there (the field holds
+   no dataclass instance, e.g. None in a field annotated with a dataclass) does not raise - the member is created from
+   the field's default factory first *)
 Definition w_A (x : string) : value := VDc "A" [("x", FInit, VLeaf "int" x)].
 Definition w_B : value := VDc "B" [("y", FInit, VLeaf "int" "1")].
 Definition w_AB (m : value) (k : string) : value := VDc "AB" [("ab", FInit, m); ("k", FInit, VLeaf "int" k)].
-Definition w_C (n : value) : value := VDc "C" [("nest", FInit, n)].
-Definition w_S (m : value) : value := VDc "S" [("ab", FInit, m); ("n", FNonInit "int" "3", VLeaf "int" "3")].
+Definition w_C (n : value) : value := VDc "C" [("nest", FInit, n); ("n", FNonInit "int" "3", VLeaf "int" "3")].
 Definition w_T : tables :=
   mktables [("AB", "ab", mkfmeta true false [("a", w_A "0"); ("b", w_B)] (Some (w_A "0")));
             ("AB", "k", mkfmeta false false [] None);
             ("C", "nest", mkfmeta true false [] (Some (w_AB (w_A "0") "3")));
-            ("S", "ab", mkfmeta true false [("a", w_A "0"); ("b", w_B)] (Some (w_A "0")));
-            ("S", "n", mkfmeta false false [] None)]
-           [("A", w_A "0"); ("B", w_B); ("AB", w_AB (w_A "0") "3"); ("C", w_C (w_AB (w_A "0") "3")); ("S", w_S (w_A "0"))].
+            ("C", "n", mkfmeta false false [] None)]
+           [("A", w_A "0"); ("B", w_B); ("AB", w_AB (w_A "0") "3"); ("C", w_C (w_AB (w_A "0") "3"))].
+Definition w_F : forest := [("nest", SNode None [("ab", SNode (Some (CKey "b")) [])])].
 
-Definition flat1 (p : path) (c : choice) : option sdict := Some [(join_dot p, sel_of_choice c)].
-
-Theorem sub_refuted :
-  (* selecting only a member BELOW `nest` resets the unselected leaf nest.k to its default *)
-  (exists T o p c e e', expected_sub T [(p, c)] o = Some e /\ rsub_gen T 64 o (flat1 p c) = Ok e' /\ e' <> e)
-  (* a selection that names no field is silently dropped *)
-  /\ (exists T o p c e', expected_sub T [(p, c)] o = None /\ rsub_gen T 64 o (flat1 p c) = Ok e')
-  (* an init=False field anywhere in the class makes every non-empty selection raise *)
-  /\ (exists T o p c e x, expected_sub T [(p, c)] o = Some e /\ rsub_gen T 64 o (flat1 p c) = Err (Raise x)).
+Theorem sub_absent_member_refuted :
+  exists T F o e', forest_ok KW F = true /\ forest_good F = true /\ tgood T = true /\ vgood o = true /\
+    expected_sub T (paths_forest F) o = None /\ rsub_gen T 64 o (Some (render_forest KW F)) = Ok e'.
 Proof.
-  split; [|split].
-  - exists w_T, (w_C (w_AB (w_A "4") "8")), ["nest"; "ab"], (CKey "b"),
-           (w_C (w_AB w_B "8")), (w_C (w_AB w_B "3")).
-    split; [vm_compute; reflexivity | split; [vm_compute; reflexivity | intros H; discriminate H]].
-  - exists w_T, (w_C (w_AB (w_A "4") "8")), ["zz"], (CKey "b"). eexists. split; vm_compute; reflexivity.
-  - exists w_T, (w_S (w_A "4")), ["ab"], (CKey "b"), (w_S w_B). eexists. split; vm_compute; reflexivity.
+  exists w_T, w_F, (w_C (VLeaf "NoneType" "None")). eexists. repeat split; vm_compute; reflexivity.
 Qed.
